@@ -131,6 +131,20 @@ def ties():
     l.append(('linux-raw-two-errors', J('Linux', '', '*filter\n:INPUT DROP\n:c1 -\n:c2 -\n-A INPUT -j c1\n-A c1 -j ACCEPT\n-A c2 -j ACCEPT\nCOMMIT\n'
               '*nat\n:PREROUTING ACCEPT\n:n1 -\n-A n1 -j ACCEPT\nCOMMIT\n',
               raw='*filter\n:c1 -\n:c2 -\n-A c1 -j DROP\n-A c2 -j DROP\nCOMMIT\n*nat\n:n1 -\n-A n1 -j DROP\nCOMMIT\n')))
+    # PAN-OS with several vsys: the order of the per-vsys blocks, and which unknown vsys is reported
+    def pan(vs):
+        body = ''
+        for name, dst in vs:
+            body += ('<entry name="%s"><display-name>managed by Netspoc</display-name><rulebase><security><rules>'
+                     '<entry name="r1"><action>allow</action><from><member>z1</member></from><to><member>z2</member></to><source><member>any</member></source>'
+                     '<destination><member>%s</member></destination><service><member>any</member></service><application><member>any</member></application>'
+                     '<rule-type>interzone</rule-type></entry></rules></security></rulebase>'
+                     '<address><entry name="%s"><ip-netmask>%s/32</ip-netmask></entry></address></entry>' % (name, dst, dst, dst.replace('IP_', '')))
+        return '<?xml version="1.0"?>\n<config><devices><entry name="localhost.localdomain"><vsys>' + body + '</vsys></entry></devices></config>\n'
+    l.append(('panos-two-vsys-both-change', J('PAN-OS', pan([('vsys1', 'IP_10.1.1.1'), ('vsys2', 'IP_10.1.1.2'), ('vsys3', 'IP_10.1.1.3')]),
+                                              pan([('vsys1', 'IP_10.1.1.4'), ('vsys2', 'IP_10.1.1.5'), ('vsys3', 'IP_10.1.1.6')]))))
+    l.append(('panos-two-unknown-vsys', J('PAN-OS', pan([('vsys1', 'IP_10.1.1.1')]),
+                                          pan([('vsys1', 'IP_10.1.1.1'), ('vsys5', 'IP_10.1.1.5'), ('vsys6', 'IP_10.1.1.6'), ('vsys7', 'IP_10.1.1.7')]))))
     return l
 
 
